@@ -91,7 +91,7 @@ def fanout_circuit(drv, m):
 def run_case(case, ctx):
     import circuitgraph as cg
 
-    c = build(case["c"])
+    c = build(case["c"], case.get("ord"))
     exc, r = "", None
     if case["op"] == "insert_registers":
         # domain: a stage boundary must exist (depth_inc = round(max_depth / (stages + 1)) >= 1)
